@@ -882,6 +882,9 @@ class NodeFor:
                     else:
                         for i in range(len(self.identifiers)):
                             environment.remove(self.identifiers[i])
+            except CklRuntimeError:
+                # an error of the loop body is not an input error
+                raise
             except Exception:
                 raise CklRuntimeError(
                     ValueString("ERROR"), "Cannot read from input", self.pos
